@@ -230,7 +230,7 @@ def iterunique(source, key):
         
     # last one?
     if prev_comp_ne:
-        yield prev
+        yield tuple(prev)
     
     
 def conflicts(table, key, missing=None, include=None, exclude=None, 
